@@ -53,6 +53,8 @@ REFUSALS = [
     (re.compile(r"dictionary struct \S+ is recursive, this is not supported"), "recursive-dict-struct"),
     (re.compile(r"the name is a Go keyword"), "go-keyword-field"),
     (re.compile(r"struct \S+ contains itself through non-optional fields"), "self-containment"),
+    (re.compile(r"must start with an upper case letter"), "lowercase-field"),
+    (re.compile(r"both need the Go identifier|clashes with the generated constant"), "name-clash"),
 ]
 GENERATING_FILE = re.compile(r"^Generating \S+\.\w+\s*$", re.M)     # "Generating modifiedfields.go"
 
